@@ -190,33 +190,18 @@ theorem reject_is_noop (st : NodeSt) (m : NMsg) (now : Time) (payloadOf : Tasks.
           simp only [hev2, Bool.false_eq_true, ↓reduceIte] at h
           exact handleEvent_notok _ _ _ _ _ h
 
-/-- `ProcessMessage` as a whole (`processMessage`, then `PutOperation`): an unsuccessful end leaves the state
-as it was, with ONE exception that the statement makes explicit: the message itself was accepted and its
-effects saved, and only the registration of the resulting operation was refused because an identical
-operation (same round, same request) is already pending — nothing new is lost in that case either. -/
+/-- `ProcessMessage` as a whole: the operation is stored together with the round state at the successful end
+(an identical pending operation is tolerated), so an unsuccessful end leaves the state as it was — no exception. -/
 theorem top_reject_is_noop (st : NodeSt) (m : NMsg) (now : Time) (payloadOf : Tasks.Msg → Bytes)
     (h : (processMessageTop st m now payloadOf).out ≠ .ok) :
-    (processMessageTop st m now payloadOf).st = st ∨
-    ((processMessage st m now payloadOf).out = .ok ∧
-     ∃ op, (processMessage st m now payloadOf).op = some op ∧
-       (visibleOps (processMessage st m now payloadOf).st).contains op = true ∧
-       (processMessageTop st m now payloadOf).st = (processMessage st m now payloadOf).st) := by
+    (processMessageTop st m now payloadOf).st = st := by
   unfold processMessageTop at h ⊢
   dsimp only at h ⊢
   split
   · rename_i op hout hop
     simp only [hout, hop] at h
-    cases hp : putOperation (processMessage st m now payloadOf).st op with
-    | some st' => simp [hp] at h
-    | none =>
-      right
-      refine ⟨hout, op, hop, ?_, rfl⟩
-      unfold putOperation at hp
-      split at hp
-      · assumption
-      · cases hp
+    exact absurd rfl h
   · rename_i hne
-    left
     have : (processMessage st m now payloadOf).out ≠ .ok := by
       intro hok
       cases hop : (processMessage st m now payloadOf).op with
